@@ -136,7 +136,7 @@ def z3(ctx):
     user = []
     for s in crate.statics:
         tl = s.get("thread_local")
-        ok = tl and "SLOT_TABLE" in s["path"]
+        ok = tl and (s["file"] or "").endswith("slot.rs") and ("SLOT_TABLE" in s["path"] or "slot::" in s["ty"])
         ctx.check(ok, "static:" + s["path"].split("::{")[0], "static %s is thread-local (the slot table)" % s["path"].split("::{")[0],
                   "static %s (%s) is not the thread-local slot table: state shared between threads / runs makes transcripts depend on what other threads do" % (s["path"], s["ty"]), "%s:%s" % (s["file"], s["line"]))
         user.append(s)
